@@ -67,6 +67,21 @@ def check_vector(ctx, item, want, tag="vector"):
                            what=f"{tag}: decode of {desc(item)} consumed {pos}/{len(want)} bytes, value equal={same}, "
                                 f"re-encode equal={again == want}"))
         return
+    # the object HOLDS the value: what the caller does with the list it passed afterwards does not reach into the object
+    if f not in ("L", "A", "J", "B") and len(item["v"]) >= 1:
+        try:
+            src = list(e5bind.pyval(item))
+            o3 = e5bind.VCLS[f](src)
+            src[0] = 0 if f != "BOOLEAN" else (not src[0])
+            src.append(src[0])
+            g3 = bytes(o3.encode())
+        except Exception as exc:  # noqa: BLE001
+            ctx.violation(dict(base, check="holds-value", error=type(exc).__name__, what=f"{tag}: {f} built from a list raised {exc!r} after the caller changed that list"))
+            return
+        if g3 != want:
+            ctx.violation(dict(base, check="holds-value", got=g3[:40].hex(), want=want[:40].hex(),
+                               what=f"{tag}: {desc(item)} encodes to {g3[:24].hex()} after the caller changed the list it was built from"))
+            return
     # decoding is a function of the bytes, not of what the object held before: an object that holds this value decodes
     # the zero-length item of its type (a list: the empty list and its own first child alone)
     from .. import e5 as ref
@@ -271,6 +286,8 @@ def run(ctx: Ctx):
         for cp in range(0x10000):
             if 0xD800 <= cp <= 0xDFFF:
                 continue
+            if ctx.quick and 0x2100 <= cp < 0xFF00 and cp % 16:
+                continue      # quick tier: Latin / punctuation / half-width blocks completely, the rest of the plane sampled
             ch = chr(cp)
             try:
                 o = T("x" + ch + "y")
